@@ -4491,7 +4491,7 @@ def _match__inside_list_quantifier(
             count += 1
 
         else:
-            if static_tags := pat.static_tags:
+            if (static_tags := pat.static_tags) and not (tagss and tagss[-1] is static_tags):  # only once, this `else` is reached for the minimum and again if the maximum is reached
                 tagss.append(static_tags)
 
                 if not pat_tag:  # if no pat_tag then inserting matches directly into tagss and need to insert them before the static_tags dict
